@@ -165,6 +165,10 @@ class Gen:
             if v >= (2, 7):
                 return "{" + ", ".join(self.expr(d + 1) for _ in range(n)) + "}"
             return "set([%s])" % ", ".join(self.expr(d + 1) for _ in range(n))
+        if k == 16 and self.chance(3) and v >= (2, 7):
+            # the same constant set (and its elements) in several code objects: shared objects, back-references
+            self.features.add("shared-frozenset-const")
+            return "(%s in {'alpha', 'beta', 7, 2.5} or %s == 'alpha' or %s == 'beta')" % (self.name(), self.name(), self.name())
         if k == 16:
             # membership in a constant set / tuple -> frozenset / tuple constants
             n = self.i(1, 4)
@@ -250,6 +254,10 @@ class Gen:
                 e(depth + 1, self.expr() + ",")
                 if self.chance(4):
                     self.lines.extend([""] * self.i(1, 3))
+                elif self.chance(8):
+                    # the call returns to its first line: a backward step of >= 127 lines
+                    self.lines.extend([""] * self.pick([127, 128, 129, 255, 256, 300]))
+                    self.features.add("backward-line-step>=127")
             e(depth, ")")
             self.features.add("multiline-expr")
         elif k == 8:
